@@ -8,13 +8,25 @@ CLAIMS = {
    text="TLC checks the coherence laws (equivalence, trichotomy, unions, transitivity, prefix order, key-order insensitivity, u* agreement) on the specification's Equals/Compare over every pair and triple of a universe dense in near-equal values; every pair is then replayed through the real evaluator for all ten operators under several monotone number lifts, so the laws transfer to the code on that universe; seeded random pairs/triples recorded from the real evaluator are validated by TLC against the same operators.",
    note="Trusted: TLC, the harness renderer (value -> source text), monotone zero-preserving number lifts, code-point-sorted alphabet. NaN excluded as the property states. Random part is sampled, not exhaustive.",
    technique="TLA+ spec (BlotsOrder) model-checked with TLC; TLC-enumerated cases replayed into the real evaluator; recorded traces validated by TLC (Trace_C12)"),
+ "C11": dict(category="model_checking", design_ref="5 C11",
+   text="The broadcasting law is written once in TLA+ (BinOp over ElemOp) and TLC checks its shape/content/failure conditions for every (operator, left, right) state - 17 operators x scalar-scalar, list-scalar, scalar-list, list-list (equal and unequal lengths) over pools with NaN, infinities, signed zero, strings, booleans, null, nested lists; every state is replayed through the real evaluator against the exact-integer / IEEE-special-value semantics of NumOp; recorded random broadcasts (length 0..8, arbitrary doubles) are validated by TLC against per-element results from the real evaluator, plus algebraic identities.",
+   note="Trusted: TLC, value renderer, identity number lift. Correct rounding of arithmetic on general doubles is delegated to hardware/libm and is decided only through exact-integer, special-value and algebraic cases.",
+   technique="TLA+ spec (BlotsOps) model-checked with TLC; TLC-enumerated cases replayed into the real evaluator; recorded traces validated by TLC (Trace_C11)"),
+ "C14": dict(category="model_checking", design_ref="5 C14",
+   text="Each built-in has a definitional TLA+ counterpart (stable sort as insertion after all <= keys, unique = first of each .== class, chunk/flatten/zip/slice/range/keys/values/entries/group_by/split/join, indexing, spreading); TLC checks the property's laws on the definitions for every call over exhaustive small pools and emits each call with its expected result, which the harness replays into the real evaluator; random calls (lists to length 40, non-ASCII strings, negative/out-of-range indexes) recorded from the real evaluator are recomputed by TLC.",
+   note="Trusted: TLC, value renderer, identity lift. Sort order asserted only for mutually comparable elements/keys (else permutation); slice/chunk/range laws for non-negative integer arguments.",
+   technique="TLA+ spec (BlotsBuiltins) model-checked with TLC; cases replayed into the real evaluator; recorded traces validated by TLC (Trace_C14)"),
+ "C15": dict(category="model_checking", design_ref="5 C15",
+   text="min/max/median/percentile are defined on ranks and TLC checks their defining properties and permutation invariance for every list (all permutations) up to the length bound incl. +-inf; sum/prod/avg are exact on small integers and IEEE specials. Each state is replayed in the three calling conventions under several strictly increasing number lifts; random lists of length 1..50 are recorded and validated by TLC (percentile membership/monotonicity/end points, order statistics, convention identity on arbitrary doubles).",
+   note="Trusted: TLC, monotone lifts, the harness computing (lo+hi)/2 and sum/count in doubles. Rounding of sum/prod/avg on general doubles is not decided (only convention identity and exact cases).",
+   technique="TLA+ spec (BlotsBuiltins aggregates) model-checked with TLC; cases replayed into the real evaluator; recorded traces validated by TLC (Trace_C15)"),
 }
 NOT_YET = "check not built yet in this session (work in progress; see DESIGN.md section 5 for the plan)"
 m = {
  "version": 1,
  "setup_cmd": "./check --setup",
  "hooks": {"guard": "blots_verif", "enable": "harness/.cargo/config.toml passes --cfg blots_verif when building blots-core as a path dependency",
-           "baseline_off_cmd": "cd /repo && cargo test --workspace --no-fail-fast --offline", "source_commits": [], "add_only": True},
+           "baseline_off_cmd": "cd /repo && cargo test --workspace --no-fail-fast --offline </dev/null", "source_commits": [], "add_only": True},
  "engines": [{"name": "tlc", "path": "spec/", "serves_properties": sorted(CLAIMS), "kind_free_text": "TLA+ specifications checked with TLC 1.8 (exhaustive, simulation and trace validation)"},
              {"name": "bvh", "path": "harness/", "serves_properties": sorted(CLAIMS), "kind_free_text": "Rust conformance harness: replays TLC-generated cases into blots-core / CLI / WASM driver and records traces for TLC"}],
  "checks": [], "not_applicable": [],
